@@ -57,6 +57,7 @@ structure St where
   abs : Abs
   maxT : Nat
   stack : List (Srv × Abs × Nat) := []
+  saved : Array (Srv × Abs × Nat) := #[]
 
 def parseEv : List String → Option Ev
   | ["connect", c] => c.toNat?.map .connect
@@ -75,7 +76,7 @@ def evTid : Ev → Nat
   | .submit _ t | .request _ t | .status _ t | .cancel _ t => t
   | _ => 0
 
-def fresh : St := ⟨init, absInit, 0, []⟩
+def fresh : St := ⟨init, absInit, 0, [], #[]⟩
 
 def step (st : St) (line : String) : St × String :=
   match (line.splitOn " ").filter (· ≠ "") with
@@ -83,8 +84,16 @@ def step (st : St) (line : String) : St × String :=
   | ["push"] => ({ st with stack := (st.srv, st.abs, st.maxT) :: st.stack }, "push")
   | ["pop"] =>
     (match st.stack with
-     | (s, a, m) :: r => (⟨s, a, m, r⟩, "pop")
+     | (s, a, m) :: r => ({ st with srv := s, abs := a, maxT := m, stack := r }, "pop")
      | [] => (st, "bad-op"))
+  | ["save"] => ({ st with saved := st.saved.push (st.srv, st.abs, st.maxT) }, s!"saved {st.saved.size}")
+  | ["load", k] =>
+    (match k.toNat? with
+     | some k =>
+       (match st.saved[k]? with
+        | some (s, a, m) => ({ st with srv := s, abs := a, maxT := m }, "load")
+        | none => (st, "bad-op"))
+     | none => (st, "bad-op"))
   | toks =>
     match parseEv toks with
     | none => (st, "bad-op")
